@@ -152,6 +152,51 @@ Definition c01_models (p : table_def -> table_def -> bool) (B T : schema) : bool
    columns and constraints *)
 Definition c01_grow (B T : schema) : bool := (baseline_ok B && c01_models grow_only B T)%bool.
 
+(* ---------- third rung: columns may be dropped, table-level constraints may be removed ---------- *)
+(* every column list of the constraint is non-empty (what validate_schema asks of a model) *)
+Definition cons_ok (k : table_constraint) : bool :=
+  match k with
+  | CForeignKey _ cols _ rcols _ _ => (nonempty cols && nonempty rcols)%bool
+  | CCheck _ _ => true
+  | _ => nonempty (constraint_columns k)
+  end.
+(* the name occurs in the constraint's columns or (quirk of drop_column_from_constraint) in the referenced columns *)
+Definition mentions (x : string) (k : table_constraint) : bool :=
+  (mem_str x (constraint_columns k)
+   || match k with CForeignKey _ _ _ rcols _ _ => mem_str x rcols | _ => false end)%bool.
+(* no column of the table carries an inline declaration of the constraint's kind: the constraint is
+   purely table-level, RemoveConstraint clears nothing and normalisation cannot bring it back *)
+Definition removable (cols : list column_def) (k : table_constraint) : bool :=
+  match k with
+  | CPrimaryKey _ _ => forallb (fun c => is_none (c_primary_key c)) cols
+  | CUnique _ _ => forallb (fun c => is_none (c_unique c)) cols
+  | CForeignKey _ _ _ _ _ _ => forallb (fun c => is_none (c_foreign_key c)) cols
+  | CIndex _ _ => forallb (fun c => is_none (c_index c)) cols
+  | CCheck _ _ => true
+  end.
+Definition is_change_action (b tn : table_def) (a : action) : bool :=
+  match a with
+  | ModifyColumnType _ _ _ _ | ModifyColumnNullable _ _ _ _
+  | ModifyColumnDefault _ _ _ | ModifyColumnComment _ _ _ => true
+  | AddConstraint _ _ => true
+  | AddColumn _ c _ => plain c
+  | DeleteColumn _ x =>
+      (forallb (fun c => (negb (String.eqb (c_name c) x) || plain c)%bool) (t_columns b)
+       && forallb (fun k => negb (mentions x k)) (t_constraints b ++ t_constraints tn))%bool
+  | RemoveConstraint _ k => removable (t_columns b) k
+  | _ => false
+  end.
+(* like grow_only, and the group may drop plain columns that no constraint of either side mentions and
+   remove constraints of a kind no column of the baseline table declares inline *)
+Definition change_only (b tn : table_def) : bool :=
+  match table_group (t_name b) b tn with
+  | [] => true
+  | g => (forallb (is_change_action b tn) g && nodup_str (colnames b)
+          && forallb default_renders (t_columns tn)
+          && forallb cons_ok (t_constraints b ++ t_constraints tn))%bool
+  end.
+Definition c01_change (B T : schema) : bool := (baseline_ok B && c01_models change_only B T)%bool.
+
 Definition c01_first (B T : schema) : bool :=
   match B with [] => (nodup_str (map t_name T) && diff_ok [] T)%bool | _ => false end.
 
@@ -191,3 +236,4 @@ Definition hyp_C01_column_attrs (c : m1_case) : bool := c01_column_attrs (baseli
 Definition hyp_C01_step (c : m1_case) : bool := c01_step (baseline_of c) (k_models c).
 Definition hyp_C01_local (c : m1_case) : bool := c01_local (baseline_of c) (k_models c).
 Definition hyp_C01_grow (c : m1_case) : bool := c01_grow (baseline_of c) (k_models c).
+Definition hyp_C01_change (c : m1_case) : bool := c01_change (baseline_of c) (k_models c).
